@@ -231,6 +231,8 @@ class SymExec:
         fr = Frame(self, fn, env)
         ret = fr.run(pc)
         self.depth -= 1
+        if self.depth == 0:
+            self.B.last_env = {k: c.v for k, c in fr.env.items()}     # locals of the outermost call, for specs about intermediate values
         return ret
 
 
@@ -357,7 +359,7 @@ class Frame:
                     raise ExtractError('emit_smt: loop unrolling limit')
             self.B.note('loop with compile-time bound unrolled %d times in %s' % (n, self.fn.cname))
             return pc
-        if k == 'while':
+        if k in ('while', 'dowhile'):
             return self.B.loop_handler(self, s, pc)
         if k in ('lock', 'ghost'):
             return pc
@@ -535,6 +537,9 @@ class Frame:
             if name in LIBM1 or name in LIBM2 or name in ('fabs', 'abs', 'floor', 'ceil', 'copysign', 'trunc', 'isnan', 'isfinite'):
                 av = [self.ev(a, pc) for a in args]
                 return B.libm(name, av, pc, e[3])
+            if name.startswith('affine_solve'):
+                av = [self.ev(a, pc) for a in args]
+                return B.affine_solve(int(name[len('affine_solve'):]), av)
             if name in emit_limits():
                 return emit_limits()[name]
             if name == 'quiet_nan':
@@ -566,6 +571,9 @@ class Builder:
         self.sx = SymExec(self)
         self.loop_handler = self.default_loop
         self.loop_records = []
+        self.facts = []
+        self.side_conditions = []
+        self.solves = {}
         self.symbolic_loop = None     # handler for `for` loops whose bound is not a compile-time constant
         self.libm_terms = {}     # (fname, args tuple) -> True
         self.functions_called = set()
@@ -645,6 +653,23 @@ class Builder:
         self.libm_terms[(fn, tuple(av))] = True
         return app(fn, *av)
 
+    def affine_solve(self, k, av):
+        """assumed contract of Eigen::Transform::inverse() * v for a transform whose linear part L is orthonormal:
+        the inverse of an orthonormal matrix is its transpose (uniqueness of the inverse), so the result is L^T (v - t).
+        The side condition L^T L = I is recorded in self.side_conditions and must be discharged by the spec."""
+        L = [av[0:3], av[4:7], av[8:11]]
+        t = [av[3], av[7], av[11]]
+        v = av[12:15]
+        key = tuple(av[:12])
+        if key not in self.solves:
+            self.solves[key] = True
+            for i in range(3):
+                for j in range(i, 3):
+                    dot = add(add(mul(L[0][i], L[0][j]), mul(L[1][i], L[1][j])), mul(L[2][i], L[2][j]))
+                    self.side_conditions.append(app('=', dot, '1.0' if i == j else '0.0'))
+            self.note('Eigen::Affine3d::inverse() * v replaced by its assumed contract for an orthonormal linear part: L^T (v - t)')
+        return add(add(mul(L[0][k], sub(v[0], t[0])), mul(L[1][k], sub(v[1], t[1]))), mul(L[2][k], sub(v[2], t[2])))
+
     def oblige(self, kind, cond, pc):
         if cond == 'true':
             return
@@ -701,7 +726,7 @@ class Builder:
                     scan(st[2]); scan(st[3])
                 elif st[0] == 'block':
                     scan(st[1])
-                elif st[0] in ('for', 'while'):
+                elif st[0] in ('for', 'while', 'dowhile'):
                     scan(st[4] if st[0] == 'for' else st[2])
         scan(s[2])
         pre = {}
